@@ -7,6 +7,9 @@ Line-protocol driver for the engine model (C01, C03, C06, C07, C08).
 Arguments: toggle names (f1 f3 f14 f31 f32 f1p f1q f1r) switch the model from as-is to repaired behaviour;
 `nof2` / `nof16` / `nof33` switch it back to the code before the fixes of F2 / F16 / F33 (historical); `desc` / `tape=1,0,2` choose the order of the two hash-set walks (Toggles.desc, .tape);
 `msg` appends the model's error message to crash lines;
+`state` (full model) appends ` #S <digest>` to every session / round line that completed: the digest of the
+model state after the op (`digest` below; the harness prints the same from the real engine with `--state`);
+`statemax=N` limits the digests to the first N cases of the stream;
 `core` runs the extended core model (QbiceVerif.Model.EngineCore, namespace `Qbice.CoreFw`: the
 REPAIRED design) instead, answering "skip" for cases outside its fragment: every acyclic program
 (each executor reads lower keys only) of input / normal / external / firewall / projection nodes
@@ -172,6 +175,37 @@ structure DS where
 def execsStr (unordered : Bool) (log : List Nat) : String :=
   if unordered then " X" else String.join ((sortNat log).map fun k => s!" {k}")
 
+def kindTag : Kind → String
+  | .input => "in" | .normal => "nm" | .firewall => "fw" | .projection => "pj" | .external => "ex"
+
+def commaNat (l : List Nat) : String := ",".intercalate (l.map toString)
+
+/-- State digest (state-level tie of C01/C03; argument `state`): the persistent bookkeeping of every
+    node in ascending key order, in the format of `eng::state_digest` of the harness:
+    `k:kind:v<0|1>:val=V:deps=[a,{b,c},d]:obs=[a,b!,c^]:dirty=[..]:tfc=[..]:pend=<0|1>:back=[..]` joined by ` ; `.
+    `v1` = verified in the current epoch; `obs`: `!` = the observed value differs from the callee's
+    stored one, `^` = the observed firewall set differs from the callee's stored one. -/
+def digest (st : St) : String :=
+  let keys := sortNat (st.nodes.map (·.1))
+  let part (k : Nat) : String :=
+    match lookup k st.nodes with
+    | none => ""
+    | some n =>
+      let deps := ",".intercalate (n.fwd.map fun
+        | .single c => toString c
+        | .unordered cs => "{" ++ commaNat cs ++ "}")
+      let obs := ",".intercalate ((sortNat (n.obs.map (·.1))).map fun c =>
+        match lookup c n.obs with
+        | none => toString c
+        | some o =>
+          let cn := lookup c st.nodes
+          toString c ++ (if cn.map (·.value) != some o.val then "!" else "")
+                     ++ (if cn.map (·.tfc) != some o.tfc then "^" else ""))
+      let dirty := sortNat ((st.dirty.filter (·.1 == k)).map (·.2))
+      let back := sortNat ((st.back.filter (·.1 == k)).map (·.2))
+      s!"{k}:{kindTag n.kind}:v{if n.lastVerified == st.epoch then 1 else 0}:val={n.value}:deps=[{deps}]:obs=[{obs}]:dirty=[{commaNat dirty}]:tfc=[{commaNat n.tfc}]:pend={if n.pendingBP.isSome then 1 else 0}:back=[{commaNat back}]"
+  " ; ".intercalate (keys.map part)
+
 def stepFull (t : Toggles) (msg : Bool) (d : DS) (toks : List String) : DS × String :=
   match toks with
   | "case" :: _ => ({ unordered := toks.contains "unordered" }, "case")
@@ -288,18 +322,28 @@ def stepCyc (d : DS) (toks : List String) : DS × String :=
       | .error _ => ({ d with cycOk := false }, "crash panic")
   | _ => (d, "bad-op")
 
-partial def loop (h : IO.FS.Stream) (out : IO.FS.Stream) (core : Bool) (corefull : Bool) (cyc : Bool) (msg : Bool) (t : Toggles) (d : DS) : IO Unit := do
+partial def loop (h : IO.FS.Stream) (out : IO.FS.Stream) (core : Bool) (corefull : Bool) (cyc : Bool) (msg : Bool) (state : Bool) (stateMax : Nat) (caseNo : Nat) (t : Toggles) (d : DS) : IO Unit := do
   let line ← h.getLine
   if line.isEmpty then return ()
   let toks := (line.trimAscii.toString.splitOn " ").filter (· ≠ "")
+  let caseNo := if toks.head? == some "case" then caseNo + 1 else caseNo
+  -- `statemax=N`: digests for the first N cases of the stream only (bounds the size of thorough runs)
+  let state := state && caseNo ≤ stateMax
   let (d', o) := if core then stepCore corefull d toks else if cyc then stepCyc d toks else stepFull t msg d toks
+  -- `state` (full model only): the digest of the state after a session / round that completed
+  let isOp := toks.head? == some "session" || toks.head? == some "round"
+  let o := if state && !core && !cyc && isOp && !(o.startsWith "crash") && !(o.startsWith "bad-op")
+    then o ++ " #S " ++ digest d'.st else o
   out.putStrLn o
-  loop h out core corefull cyc msg t d'
+  loop h out core corefull cyc msg state stateMax caseNo t d'
 
 def main (args : List String) : IO Unit := do
   -- `tape=1,0,2`: the order tape for hash-set walks
   let tape : List Nat := match args.find? (·.startsWith "tape=") with
     | some a => ((a.drop 5).toString.splitOn ",").filterMap String.toNat?
     | none => []
+  let stateMax : Nat := match args.find? (·.startsWith "statemax=") with
+    | some a => ((a.drop 9).toString.toNat?).getD 0
+    | none => 1000000000
   let t : Toggles := { tape := tape, f1 := args.contains "f1", f2 := !args.contains "nof2", f3 := args.contains "f3", f14 := !args.contains "nof14", f1p := !args.contains "nof1p", f1q := !args.contains "nof1q", f1r := !args.contains "nof1r", f13 := !args.contains "nof13", f16 := !args.contains "nof16", f33 := !args.contains "nof33", f31 := args.contains "f31", f32 := args.contains "f32", desc := args.contains "desc" }
-  loop (← IO.getStdin) (← IO.getStdout) (args.contains "core" || args.contains "corefull") (args.contains "corefull") (args.contains "cyc") (args.contains "msg") t {}
+  loop (← IO.getStdin) (← IO.getStdout) (args.contains "core" || args.contains "corefull") (args.contains "corefull") (args.contains "cyc") (args.contains "msg") (args.contains "state") stateMax 0 t {}
